@@ -8,6 +8,7 @@ CONSTANTS
   Fmts = {"bc_idx"}
   NFiles = {1}
   Lazy = {FALSE, TRUE}
+  Touches = {"lookup", "getitem"}
   Variant = "design"
 INVARIANT TypeOK
 INVARIANT Inv_C03_Nearest
